@@ -6,6 +6,16 @@ HERE = os.path.dirname(os.path.dirname(os.path.abspath(__file__)))
 
 # id -> (category, technique, level text, level note, design ref)
 CHECKS = {
+ "C02": ("exploration",
+         "runtime monitor: syn parse + module-tree reader + name/arity resolution + generic-usage + inline-cycle detection over emitted modules, and rustc (with parity-scale-codec derives) as a runtime environment for batches of emitted modules",
+         "Every generated module of thousands of (registry after de-duplication, settings) pairs is parsed and checked for closedness, arity, unused generics, duplicate names and heap-free cycles; resolve_type_path of every id is checked too. One (quick) / many (thorough) batches of modules, including the 918-type Polkadot module, are compiled with rustc and the real codec derives; rejected modules are attributed to their case by primary span.",
+         "Trusted: syn, the harness's classifier of the alloc/core/compact/bits paths, rustc + parity-scale-codec 3.6.12 (char is excluded from compiled programs because that codec version has no impl for it).",
+         "DESIGN.md section 6 C02"),
+ "C10": ("fault_enumeration",
+         "runtime monitor with single-fault injection at every site of every base registry; expected error per fault kind computed by an oracle walk that is cross-checked against resolve hook events",
+         "Every entry id, every multi-field composite/variant of generated types, both settings paths and every field/element/parameter position of each base registry receives one fault; the returned error must be the documented one at judged sites, and nothing may panic anywhere. The fault-free tier runs all APIs on thousands of well-formed registries (deep nesting, Duration, NonZero, nested PhantomData, Polkadot).",
+         "Trusted: the oracle's model of which entries generation has to look at (cross-checked per base against hook events; a disagreement is counted and noted). Bases are restricted to unique paths as the quantifier says.",
+         "DESIGN.md section 6 C10"),
  "C01": ("exploration",
          "runtime monitor: reference-model oracle (code-model interpreter + pair-coinductive bisimulation against the registry) and reference SCALE codec round trips over generated programs and real chain metadata",
          "For thousands (quick) / >100k (thorough) of (registry, settings) pairs the real generator runs; every id's named type is parsed, looked up in the parsed emitted module and related to the registry type by bisimulation, then reference encodings are decoded by interpreting the code type. Held = no divergence on the executions observed; hook counters prove every TypeDef arm, parameter matching and Cow unwrapping were reached.",
